@@ -449,7 +449,7 @@ func (env *SpecEnv) bin(x *SExpr) SV {
 	case "-":
 		return SV{t: fmt.Sprintf("(- %s %s)", a.t, b.t), sort: "Int"}
 	case "*":
-		return SV{t: fmt.Sprintf("(* %s %s)", a.t, b.t), sort: "Int"}
+		return SV{t: mulTerm(a.t, b.t), sort: "Int"}
 	case "/":
 		return SV{t: fmt.Sprintf("(tdiv %s %s)", a.t, b.t), sort: "Int"}
 	case "%":
@@ -593,6 +593,17 @@ func (env *SpecEnv) call(x *SExpr) SV {
 		}
 		env.e.ensureState("bank", "(Array Addr (Array Str Int))")
 		return SV{t: fmt.Sprintf("(select (select %s %s) %s)", env.state("bank"), argv(0).t, argv(1).t), sort: "Int"}
+	case "oldbal": // balance in the old state of an (address, denom) evaluated in the current state
+		if !need(2) {
+			break
+		}
+		env.e.ensureState("bank", "(Array Addr (Array Str Int))")
+		a0, a1 := argv(0).t, argv(1).t
+		was := env.inOld
+		env.inOld = true
+		b := env.state("bank")
+		env.inOld = was
+		return SV{t: fmt.Sprintf("(select (select %s %s) %s)", b, a0, a1), sort: "Int"}
 	case "str":
 		if !need(1) {
 			break
